@@ -492,6 +492,9 @@ static int same_value(const RCP<const Basic> &a, const RCP<const Basic> &b)
     bool eb = is_a<Integer>(*b) || is_a<Rational>(*b) || is_a<Complex>(*b) || is_a<Infty>(*b);
     if (is_a<NaN>(*a) || is_a<NaN>(*b))
         return -1;
+    // values at a pole (oo, -oo, zoo) are not compared
+    if (is_a<Infty>(*a) || is_a<Infty>(*b))
+        return -1;
     if (ea && eb)
         return 0;
     try {
